@@ -125,6 +125,9 @@ def main():
             except eng.Inconclusive as e:
                 inconclusive.append(f"replay {fn}: {e}")
                 continue
+            except Exception as e:  # noqa: BLE001 - a harness problem is never a violation
+                inconclusive.append(f"replay {fn}: harness error {type(e).__name__}: {e}")
+                continue
             replayed += 1
             if err:
                 inconclusive.append(f"replay {fn}: {err}")
